@@ -70,7 +70,7 @@ typedef struct {
     unsigned char nonce[16]; int nonce_len;
     uint64_t aad_digest; int aad_len;
     uint64_t pt_digest;  int pt_len;
-    unsigned char pt_head[8];     /* first bytes of plaintext (TLS 1.3: handshake type) */
+    unsigned char pt_head[16];    /* first bytes of plaintext (TLS 1.3: handshake type; CBC: the explicit IV block before encryption) */
     unsigned char pt_tail[4];     /* last bytes of plaintext (TLS 1.3 inner type) */
     unsigned char ct_head[16];    /* CBC: first ciphertext block */
     unsigned char iv[16];         /* CBC: IV used */
